@@ -45,7 +45,7 @@ def seeds_for(p, tier, seed):
     base = [0, 1, 2**63 + 17 + seed, 2**64 - 1]
     if tier == "quick":
         return base + [2**32 + seed, 0xDEADBEEFCAFEF00D ^ seed, 12345 + seed, 2**63 - 1 - seed]
-    n = 200 if p <= 12 else 40
+    n = 600 if p <= 12 else 120
     return base + [(0x9E3779B97F4A7C15 * (i + 1 + seed)) & (2**64 - 1) for i in range(n)]
 
 
